@@ -1,0 +1,21 @@
+//go:build verif
+
+/*
+ * Verification hook for property C04 (build tag "verif"): exposes the four views
+ * newRunnablePacker derives from a subset of native implementations, so that the
+ * correspondence harness can call the Stream and Collect views of a lambda directly
+ * (inside a graph only the Invoke and Transform views of a node are reachable).
+ * Add-only; compiled out of every normal build.
+ */
+
+package compose
+
+// VerifPack packs the given native implementations (nil = not implemented) exactly as
+// runnableLambda does and returns the four derived views.
+func VerifPack[I, O, TOption any](i Invoke[I, O, TOption], s Stream[I, O, TOption],
+	c Collect[I, O, TOption], t Transform[I, O, TOption]) (
+	Invoke[I, O, TOption], Stream[I, O, TOption], Collect[I, O, TOption], Transform[I, O, TOption]) {
+
+	rp := newRunnablePacker(i, s, c, t, false)
+	return rp.Invoke, rp.Stream, rp.Collect, rp.Transform
+}
